@@ -519,6 +519,11 @@ func c05Types(c *Ctx) {
 		bad := ""
 		var dyn []string
 		var tys []string
+		// a time.Time only encodes for years 0..9999: one built from client-chosen numbers (time.Unix(n, 0), time.Date(…))
+		// makes Marshal fail for the whole event
+		if w := clientChosenTime(s.arg, 0); w != "" {
+			bad = "time.Time from " + w + " (MarshalJSON rejects years outside 0..9999)"
+		}
 		for _, o := range origins {
 			if o.kind == "type" {
 				notes := map[string]bool{}
@@ -1063,4 +1068,64 @@ func calleesOf(p *Program, call ssa.CallInstruction) []*ssa.Function {
 		}
 	}
 	return out
+}
+
+// clientChosenTime: v is (an interface holding) a time.Time that can come from time.Unix/UnixMilli/Date/Parse with
+// arguments that are not constants; returns a description of that origin.
+func clientChosenTime(v ssa.Value, depth int) string {
+	if depth > 6 {
+		return ""
+	}
+	v = Unwrap(v)
+	if n := NamedOf(v.Type()); n == nil || n.Obj().Pkg() == nil || n.Obj().Pkg().Path() != "time" || n.Obj().Name() != "Time" {
+		return ""
+	}
+	switch x := v.(type) {
+	case *ssa.Phi:
+		for _, e := range x.Edges {
+			if w := clientChosenTime(e, depth+1); w != "" {
+				return w
+			}
+		}
+	case *ssa.Extract:
+		return clientChosenTime(x.Tuple, depth+1)
+	case *ssa.UnOp:
+		if a, ok := x.X.(*ssa.Alloc); ok {
+			for _, sv := range StoredValues(a) {
+				if w := clientChosenTime(sv, depth+1); w != "" {
+					return w
+				}
+			}
+		}
+	case *ssa.Call:
+		f := x.Call.StaticCallee()
+		if f == nil {
+			return ""
+		}
+		if PkgOf(f) == "time" && f.Signature.Recv() == nil {
+			switch f.Name() {
+			case "Unix", "UnixMilli", "UnixMicro", "Date", "Parse", "ParseInLocation":
+				for _, a := range x.Call.Args {
+					if _, isK := a.(*ssa.Const); !isK {
+						return "time." + f.Name() + "(" + RenderN(a, 2) + ", …)"
+					}
+				}
+			}
+			return ""
+		}
+		// methods that keep the instant (UTC, Local, In, Round, Truncate, Add with a bounded duration is not decided)
+		if PkgOf(f) == "time" && f.Signature.Recv() != nil && len(x.Call.Args) > 0 {
+			return clientChosenTime(x.Call.Args[0], depth+1)
+		}
+		if InRepo(f) && f.Blocks != nil {
+			for _, r := range Returns(f) {
+				for _, rv := range RetVals(r) {
+					if w := clientChosenTime(rv, depth+1); w != "" {
+						return w
+					}
+				}
+			}
+		}
+	}
+	return ""
 }
